@@ -13,6 +13,7 @@ import operator
 import typing
 from abc import abstractmethod, ABC
 from collections import UserDict
+from collections.abc import Iterator
 from copy import copy
 from dataclasses import dataclass, field, fields, MISSING, is_dataclass
 from functools import lru_cache, cached_property
@@ -1238,6 +1239,33 @@ class Variable(CanBehaveLikeAVariable[T]):
 
 
 @dataclass(eq=False, init=False, repr=False)
+class ReplayableIterable:
+    """
+    The items of a one-shot iterable, remembered as they are pulled: it can be walked any number of times (also by
+    several walks at a time), the source is asked for an item only when a walk gets to it for the first time.
+    """
+
+    def __init__(self, source: Iterator):
+        self._source = source
+        self._items = []
+        self._exhausted = False
+
+    def __iter__(self):
+        position = 0
+        while True:
+            if position < len(self._items):
+                yield self._items[position]
+                position += 1
+                continue
+            if self._exhausted:
+                return
+            try:
+                self._items.append(next(self._source))
+            except StopIteration:
+                self._exhausted = True
+                return
+
+
 class Literal(Variable[T]):
     """
     Literals are variables that are not constructed by their type but by their given data.
@@ -1246,6 +1274,11 @@ class Literal(Variable[T]):
     def __init__(
         self, data: Any, name: Optional[str] = None, type_: Optional[Type] = None
     ):
+        if isinstance(data, Iterator):
+            # a one-shot iterable (a generator, map, filter, ...) is walked once, item by item and only as far as the
+            # evaluation asks for; every later walk (another binding of the other variables, another evaluation)
+            # sees the same items again - like the domain of a variable
+            data = ReplayableIterable(data)
         original_data = data
         data = [data]
         if not type_:
